@@ -83,6 +83,8 @@ type Run struct {
 	exhaustive  bool
 	exhSet      bool
 	violations  int
+	pending     []Violation
+	alternates  map[string][]Violation
 	vioKeys     map[string]int
 	knownHit    map[string]int
 	findings    []Finding
@@ -254,71 +256,104 @@ func (r *Run) Violated() bool { r.mu.Lock(); defer r.mu.Unlock(); return r.viola
 // TooMany reports whether the violation cap has been reached (checks may stop).
 func (r *Run) TooMany() bool { r.mu.Lock(); defer r.mu.Unlock(); return r.violations >= MaxViolations }
 
-// Report records a violation: it is matched against known_findings.json,
-// re-checked 5 times when a Recheck function is given, written to a replay
-// file and printed.
+// Report records a candidate violation. It is matched against
+// known_findings.json at once; otherwise it is kept and, when the run is over
+// and every worker has stopped (Finish), re-executed 5 times through Recheck
+// (if given), written to a replay file and printed. Re-checking in quiescence
+// matters for failures that depend on state shared between evaluations.
 func (r *Run) Report(v Violation) {
 	r.mu.Lock()
-	// one line per key
+	defer r.mu.Unlock()
+	// one line per key (a few alternates are kept in case the first candidate
+	// does not reproduce in quiescence)
 	if r.vioKeys[v.Key] > 0 || r.knownHit[v.Key] > 0 {
 		if r.vioKeys[v.Key] > 0 {
 			r.vioKeys[v.Key]++
+			if n := r.vioKeys[v.Key]; n <= 4 || n%97 == 0 && len(r.alternates[v.Key]) < 8 {
+				if r.alternates == nil {
+					r.alternates = map[string][]Violation{}
+				}
+				r.alternates[v.Key] = append(r.alternates[v.Key], v)
+			}
 		} else {
 			r.knownHit[v.Key]++
 		}
-		r.mu.Unlock()
 		return
 	}
 	for _, f := range r.findings {
 		if f.Property == r.ID && f.Status == "known" && f.Key == v.Key {
 			r.knownHit[v.Key] = 1
-			r.mu.Unlock()
 			fmt.Printf("KNOWN-FINDING: property=%s %s [%s]\n", r.ID, f.What, f.Key)
 			return
 		}
 	}
 	if r.violations >= MaxViolations {
-		r.mu.Unlock()
 		return
 	}
 	r.vioKeys[v.Key] = 1
 	r.violations++
-	r.mu.Unlock()
+	r.pending = append(r.pending, v)
+}
 
-	if v.Recheck != nil {
-		first := v.Recheck()
-		for i := 0; i < 4; i++ {
-			if again := v.Recheck(); again != first {
+// confirm re-executes the pending candidates and prints the confirmed ones.
+// It returns the number of confirmed violations and the unconfirmed ones.
+func (r *Run) confirm() (int, []string) {
+	r.mu.Lock()
+	pending := r.pending
+	r.pending = nil
+	r.mu.Unlock()
+	confirmed := 0
+	var unconfirmed []string
+	for pi := 0; pi < len(pending); pi++ {
+		v := pending[pi]
+		if v.Recheck != nil {
+			obs := make([]string, 5)
+			empty, differ := 0, false
+			for i := range obs {
+				obs[i] = v.Recheck()
+				if obs[i] == "" {
+					empty++
+				}
+				if obs[i] != obs[0] {
+					differ = true
+				}
+			}
+			if empty > 0 {
 				r.mu.Lock()
-				r.violations--
+				alts := r.alternates[v.Key]
+				if len(alts) > 0 {
+					// try another candidate of the same class
+					pending = append(pending, alts[0])
+					r.alternates[v.Key] = alts[1:]
+					r.mu.Unlock()
+					continue
+				}
 				delete(r.vioKeys, v.Key)
 				r.mu.Unlock()
-				Fatalf("nondeterministic counterexample for %s key=%s:\n first: %s\n again: %s", r.ID, v.Key, first, again)
+				unconfirmed = append(unconfirmed, fmt.Sprintf("key=%s reproduced in %d of 5 re-executions (%s)", v.Key, 5-empty, v.What))
+				continue
+			}
+			if differ {
+				v.What += " [observations differ between re-executions; each one violates the property]"
 			}
 		}
-		if first == "" {
-			// the re-execution does not reproduce it
-			r.mu.Lock()
-			r.violations--
-			delete(r.vioKeys, v.Key)
-			r.mu.Unlock()
-			Fatalf("counterexample for %s key=%s does not reproduce on re-execution (%s)", r.ID, v.Key, v.What)
+		confirmed++
+		doc := map[string]interface{}{
+			"property": r.ID, "kind": v.Kind, "key": v.Key, "what": v.What,
+			"tier": r.Tier, "seed": r.Seed, "input": v.Replay,
 		}
+		b, _ := json.MarshalIndent(doc, "", " ")
+		sum := sha1.Sum(b)
+		dir := filepath.Join(Root, "replays")
+		os.MkdirAll(dir, 0o755)
+		path := filepath.Join(dir, r.ID+"-"+hex.EncodeToString(sum[:6])+".json")
+		if err := os.WriteFile(path, b, 0o644); err != nil {
+			Fatalf("cannot write replay file: %v", err)
+		}
+		fmt.Printf("VIOLATION property=%s replay=%s\n", r.ID, path)
+		fmt.Printf("  what: %s\n  key:  %s\n", v.What, v.Key)
 	}
-	doc := map[string]interface{}{
-		"property": r.ID, "kind": v.Kind, "key": v.Key, "what": v.What,
-		"tier": r.Tier, "seed": r.Seed, "input": v.Replay,
-	}
-	b, _ := json.MarshalIndent(doc, "", " ")
-	sum := sha1.Sum(b)
-	dir := filepath.Join(Root, "replays")
-	os.MkdirAll(dir, 0o755)
-	path := filepath.Join(dir, r.ID+"-"+hex.EncodeToString(sum[:6])+".json")
-	if err := os.WriteFile(path, b, 0o644); err != nil {
-		Fatalf("cannot write replay file: %v", err)
-	}
-	fmt.Printf("VIOLATION property=%s replay=%s\n", r.ID, path)
-	fmt.Printf("  what: %s\n  key:  %s\n", v.What, v.Key)
+	return confirmed, unconfirmed
 }
 
 // Fatalf prints an infrastructure error and exits 2.
@@ -329,7 +364,9 @@ func Fatalf(format string, a ...interface{}) {
 
 // Finish writes the evidence file and exits with the verdict.
 func (r *Run) Finish() {
+	confirmed, unconfirmed := r.confirm()
 	r.mu.Lock()
+	r.violations = confirmed
 	cov := map[string]interface{}{}
 	for k, v := range r.extra {
 		cov[k] = v
@@ -362,6 +399,9 @@ func (r *Run) Finish() {
 		sort.Strings(keys)
 		cov["known_findings_observed"] = keys
 	}
+	if len(unconfirmed) > 0 {
+		cov["unconfirmed_candidates"] = unconfirmed
+	}
 	if len(r.vioKeys) > 0 {
 		m := map[string]int{}
 		for k, n := range r.vioKeys {
@@ -387,6 +427,12 @@ func (r *Run) Finish() {
 		r.ID, r.Tier, ev, st, tr, cov["distinct_nontrivial"], cov["exhaustive"], vio, time.Since(r.start).Seconds())
 	if vio > 0 {
 		os.Exit(1)
+	}
+	if len(unconfirmed) > 0 {
+		for _, u := range unconfirmed {
+			fmt.Printf("ERROR: counterexample does not reproduce on re-execution: %s\n", u)
+		}
+		os.Exit(2)
 	}
 	os.Exit(0)
 }
